@@ -147,6 +147,24 @@ def run_stream(modname, stream, tier, seed, n_cases, shards=None):
     return total
 
 
+def generate_cases(strategy, n, seed):
+    """Draw ``n`` examples of a strategy with a fixed seed (Hypothesis is the only source of randomness)."""
+    import hypothesis
+    from hypothesis import HealthCheck, Phase, given, settings
+
+    out = []
+
+    @hypothesis.seed(seed)
+    @settings(max_examples=n, database=None, deadline=None, derandomize=False, phases=[Phase.generate],
+              suppress_health_check=list(HealthCheck), report_multiple_bugs=False)
+    @given(strategy)
+    def body(x):
+        out.append(x)
+
+    body()
+    return out
+
+
 def run_tasks(fn, tasks, procs=None):
     """Plain parallel map for enumerated (non-Hypothesis) sweeps.  fn(task) -> Stats."""
     procs = procs or N_WORKERS
